@@ -333,7 +333,7 @@ macro_rules! make_undo_harness {
 }
 
 //@ obligation: C02.make_undo.quiet
-//@ property: C02
+//@ property: C02 C17 C11
 //@ domain: complete
 //@ harness: vk_c02_make_undo_quiet
 //@ functions: chess/game.rs::Game::make_move, chess/game.rs::Game::undo_move, chess/game.rs::Game::set_at, chess/game.rs::Game::remove_at, chess/game.rs::Game::try_remove_castle_rights
@@ -342,7 +342,7 @@ macro_rules! make_undo_harness {
 //@ note: fully symbolic game x every shape-valid non-capturing, non-castling, non-promoting move (pawn single and double pushes included): post-state == rules (64 squares in all three views, side, rights, ep target only if capturable, clocks, history snapshot) and make;undo restores every observable field
 make_undo_harness!(vk_c02_make_undo_quiet, QUIET, 0);
 //@ obligation: C02.make_undo.capture
-//@ property: C02
+//@ property: C02 C17 C11
 //@ domain: complete
 //@ harness: vk_c02_make_undo_capture
 //@ functions: chess/game.rs::Game::make_move, chess/game.rs::Game::undo_move
@@ -350,7 +350,7 @@ make_undo_harness!(vk_c02_make_undo_quiet, QUIET, 0);
 //@ mem_gb: 4
 make_undo_harness!(vk_c02_make_undo_capture, CAPTURE, 0);
 //@ obligation: C02.make_undo.en_passant
-//@ property: C02
+//@ property: C02 C17 C11
 //@ domain: complete
 //@ harness: vk_c02_make_undo_en_passant
 //@ functions: chess/game.rs::Game::make_move, chess/game.rs::Game::undo_move
@@ -358,7 +358,7 @@ make_undo_harness!(vk_c02_make_undo_capture, CAPTURE, 0);
 //@ mem_gb: 4
 make_undo_harness!(vk_c02_make_undo_en_passant, EN_PASSANT, 0);
 //@ obligation: C02.make_undo.castle_kingside
-//@ property: C02
+//@ property: C02 C17 C11
 //@ domain: complete
 //@ harness: vk_c02_make_undo_castle_k
 //@ functions: chess/game.rs::Game::make_move, chess/game.rs::Game::undo_move, chess/square.rs::mod squares / fn castle_squares
@@ -366,7 +366,7 @@ make_undo_harness!(vk_c02_make_undo_en_passant, EN_PASSANT, 0);
 //@ mem_gb: 4
 make_undo_harness!(vk_c02_make_undo_castle_k, CASTLE_K, 0);
 //@ obligation: C02.make_undo.castle_queenside
-//@ property: C02
+//@ property: C02 C17 C11
 //@ domain: complete
 //@ harness: vk_c02_make_undo_castle_q
 //@ functions: chess/game.rs::Game::make_move, chess/game.rs::Game::undo_move, chess/square.rs::mod squares / fn castle_squares
@@ -374,7 +374,7 @@ make_undo_harness!(vk_c02_make_undo_castle_k, CASTLE_K, 0);
 //@ mem_gb: 4
 make_undo_harness!(vk_c02_make_undo_castle_q, CASTLE_Q, 0);
 //@ obligation: C02.make_undo.promotion
-//@ property: C02
+//@ property: C02 C17 C11
 //@ domain: complete
 //@ harness: vk_c02_make_undo_promo
 //@ functions: chess/game.rs::Game::make_move, chess/game.rs::Game::undo_move
@@ -382,7 +382,7 @@ make_undo_harness!(vk_c02_make_undo_castle_q, CASTLE_Q, 0);
 //@ mem_gb: 4
 make_undo_harness!(vk_c02_make_undo_promo, PROMO, 0);
 //@ obligation: C02.make_undo.capture_promotion
-//@ property: C02
+//@ property: C02 C17 C11
 //@ domain: complete
 //@ harness: vk_c02_make_undo_cap_promo
 //@ functions: chess/game.rs::Game::make_move, chess/game.rs::Game::undo_move
